@@ -89,6 +89,3 @@ func cmdRun(args []string) int {
 	return rc
 }
 
-func cmdCheck(args []string) int    { fmt.Println("not yet"); return 3 }
-func cmdReplay(args []string) int   { fmt.Println("not yet"); return 3 }
-func cmdSelftest(args []string) int { fmt.Println("not yet"); return 3 }
